@@ -787,7 +787,7 @@ def s_ops(draw, max_ops, orders, allow_step):
 
 
 @st.composite
-def s_history(draw, tier, Ls, cyclic, imag, orders=(1, 2, 4), max_ops=4, kmax=8.0, bonds=(1, 2, 3), bsym=(False,),
+def s_history(draw, tier, Ls, cyclic, imag=(False,), orders=(1, 2, 4), max_ops=4, kmax=8.0, bonds=(1, 2, 3), bsym=(False,),
               allow_tol=True, allow_step=True, ds=(2, 2, 2, 3)):
     ham = draw(s_ham1d(Ls=Ls, cyclic=(cyclic,), bsym=bsym, ds=ds, dmax_dense=128))
     mode = draw(st.sampled_from(["dt", "dt", "tol", "percall"] if allow_tol else ["dt"]))
@@ -798,7 +798,7 @@ def s_history(draw, tier, Ls, cyclic, imag, orders=(1, 2, 4), max_ops=4, kmax=8.
                 "scale": draw(st.sampled_from([1.0, 1.0, 1.7]))},
         "mode": mode, "tol_order": draw(st.sampled_from(orders)),
         "dt": draw(st.sampled_from([0.1, 0.05, 0.13])), "t0": draw(st.sampled_from([0.0, 0.0, -0.7, 0.35])),
-        "imag": imag, "kmax": kmax,
+        "imag": draw(st.sampled_from(imag)), "kmax": kmax,
         "ops": draw(s_ops(max_ops, orders, allow_step and mode == "dt")),
     }
 
@@ -1209,8 +1209,12 @@ def strat_conv(**kw):
 @st.composite
 def s_cache(draw, tier):
     spec = draw(s_ham1d(Ls=(3, 4, 5, 6), cyclic=(False, False, True), ds=(2, 2, 3)))
+    if draw(st.booleans()):
+        # the supplied arrays themselves become the stored terms (nothing else keeps them alive)
+        spec.update(h1="none", h2="dict", orient=[0] * NMAX, dup=-1)
     ops = draw(st.lists(st.one_of(
         st.fixed_dictionaries({"op": st.just("expm"), "w": st.integers(0, 11), "x": st.sampled_from(XS)}),
+        st.fixed_dictionaries({"op": st.just("expm_all"), "x": st.sampled_from(XS[:3])}),
         st.fixed_dictionaries({"op": st.just("gate"), "w": st.integers(0, 11)}),
         st.fixed_dictionaries({"op": st.just("apply"), "fn": st.sampled_from(["scale", "conj", "astype", "copy"])}),
         st.fixed_dictionaries({"op": st.just("second"), "seed": A.seeds}),
@@ -1245,22 +1249,24 @@ def run_cache(case):
             others.append(None)
             del h2
             continue
-        k = keys[op["w"] % len(keys)]
         info = dict(after_apply=napply > 0, cls="LocalHam1D")
         if op["op"] == "gate":
+            k = keys[op["w"] % len(keys)]
             got = np.asarray(ham.get_gate(k))
             ee = rel_err(got, model[k], floor=mag)
             if not ee <= EXACT64:
                 raise Violation("gate-value", err=ee, call="get_gate", **info)
-        else:
-            x = as_x(op["x"])
+            err = max(err, ee)
+            continue
+        x = as_x(op["x"])
+        for k in (keys if op["op"] == "expm_all" else [keys[op["w"] % len(keys)]]):
             got = np.asarray(ham.get_gate_expm(k, x))
             want = expm_term(model[k], x)
             ee = rel_err(got, want, floor=float(np.linalg.norm(want)))
             if not ee <= EXACT64:
                 raise Violation("gate-expm", err=ee, call="get_gate_expm", **info)
             nexp += 1
-        err = max(err, ee)
+            err = max(err, ee)
     return {"nt": nexp >= 2, "cls": ham_classes(spec, ref) + (["after-apply"] if napply else []) + (["second-ham"] if others else []),
             "err": err}
 
@@ -1273,7 +1279,7 @@ def run_cache(case):
 def s_mpo_prop(draw, tier):
     spec = draw(s_ham1d(Ls=(2, 3, 4, 5), cyclic=(False,), ds=(2,)))
     return {"ham": spec, "order": draw(st.sampled_from([1, 2, 4])), "x": draw(st.sampled_from(XS)),
-            "contract_sites": draw(st.booleans())}
+            "contract_sites": draw(st.booleans()), "shape": draw(st.sampled_from(["default", "default", "none", "lrdu"]))}
 
 
 def run_mpo_prop(case):
@@ -1284,9 +1290,14 @@ def run_mpo_prop(case):
     terms = {k: np.array(v, dtype=np.complex128) for k, v in ham.terms.items()}
     x = as_x(case["x"])
     order = case["order"]
-    mpo = ham.build_mpo_propagator_trotterized(x, order=order, contract_sites=case["contract_sites"], cutoff=0.0)
-    up = [mpo.upper_ind(i) for i in range(L)]
-    lo = [mpo.lower_ind(i) for i in range(L)]
+    kw = {}
+    if case["shape"] == "none":
+        kw["shape"] = None
+    elif case["shape"] != "default":
+        kw["shape"] = case["shape"]
+    mpo = ham.build_mpo_propagator_trotterized(x, order=order, contract_sites=case["contract_sites"], cutoff=0.0, **kw)
+    up = ["k%d" % i for i in range(L)]  # documented default upper_ind_id / lower_ind_id
+    lo = ["b%d" % i for i in range(L)]
     got = np.asarray(tn_value(mpo, up + lo), dtype=np.complex128).reshape(d ** L, d ** L)
     # default ordering 'sort' greedily groups the sorted pairs: for a chain that is even bonds then odd bonds
     dl = DenseLayers([d] * L, terms, chain_layers(L, False) if L > 2 else [[(0, 1)]])
@@ -1306,23 +1317,23 @@ SUBCHECKS = [
              rule="LocalHam2D/3D (default term, overrides, reversed keys, periodic directions of length>=3): sum of terms, gates; nt: >=3 terms and not the bare default"),
     SubCheck("trotter_schedule", run_schedule, enum=enum_schedule, exhaustive=True,
              rule="orders 1/2/4 x 0-6 layers: equals the docstring formula, fractions per layer sum to 1, palindromic, Suzuki order condition; unsupported orders raise"),
-    SubCheck("tebd_open_real", run_history, strat_hist(Ls=(2, 3, 4, 5, 6, 7), cyclic=False, imag=False), examples=(120, 3000),
+    SubCheck("tebd_open_real", run_history, strat_hist(Ls=(2, 3, 4, 5, 6, 7), cyclic=False, imag=(False,)), examples=(120, 3000),
              shards=(2, 6), rule="open chain, cutoff 0, real time: after every call t == T (1e-12), dense state == product formula (EXACT64), norm preserved (1e-10); nt as RULE"),
-    SubCheck("tebd_open_imag", run_history, strat_hist(Ls=(2, 3, 4, 5, 6, 7), cyclic=False, imag=True), examples=(100, 2500),
+    SubCheck("tebd_open_imag", run_history, strat_hist(Ls=(2, 3, 4, 5, 6, 7), cyclic=False, imag=(True,)), examples=(100, 2500),
              shards=(1, 4), rule="open chain, imaginary time: state == normalised product formula, norm == 1 (1e-10), t == T; nt as RULE"),
     SubCheck("tebd_cyclic_even", run_history,
-             strat_hist(Ls=(4, 6), cyclic=True, imag=False, max_ops=2, kmax=2.5, bonds=(1, 2), bsym=(False, True),
-                        orders=(1, 2), allow_step=False, ds=(2,)),
+             strat_hist(Ls=(4, 6), cyclic=True, imag=(False, False, False, True), max_ops=2, kmax=3.0, bonds=(1, 2),
+                        bsym=(False, True, True), ds=(2,)),
              examples=(60, 1500), shards=(1, 4),
              rule="even periodic chain, cutoff 1e-13, <= 2.5 steps: state == product formula with the boundary bond in the odd layer (1e-8), t, norm; nt as RULE"),
     SubCheck("tebd_cyclic_odd", run_history,
-             strat_hist(Ls=(3, 5), cyclic=True, imag=False, max_ops=2, kmax=2.5, bonds=(1, 2), bsym=(False, True),
-                        orders=(1, 2), allow_step=False, ds=(2,)),
+             strat_hist(Ls=(3, 5), cyclic=True, imag=(False, False, False, True), max_ops=2, kmax=3.0, bonds=(1, 2),
+                        bsym=(False, True), ds=(2,)),
              examples=(40, 1000), shards=(1, 4),
              rule="odd periodic chain: time book-keeping and norm only (no symmetric splitting exists); nt as RULE"),
     SubCheck("conv_open", run_conv, strat_conv(Ls=(3, 4, 5, 6), cyclic=False), examples=(40, 800), shards=(1, 4),
              rule="open chain: error vs expm(-iHT) psi0 at 2/4/8 steps, fitted slope >= order - 0.35; nt: L>=3"),
-    SubCheck("conv_cyclic", run_conv, strat_conv(Ls=(3, 4, 5, 6), cyclic=True, bsym=(False, True), bonds=(1,)), examples=(40, 800),
+    SubCheck("conv_cyclic", run_conv, strat_conv(Ls=(3, 4, 5, 6), cyclic=True, bsym=(False, True, True), bonds=(1,)), examples=(40, 800),
              shards=(1, 4),
              rule="periodic chain: 1/2/4 steps (order 4: 1/2/3), slope >= order - 0.35 (even L), >= 0.5 (odd L); nt: all"),
     SubCheck("gate_cache_history", run_cache, s_cache, examples=(120, 2500), shards=(1, 4),
